@@ -113,7 +113,17 @@ def run (j : Json) : Except String Json := do
   let upg := match docVersion doc with
     | some v => if 1 ≤ v then some (sameResult (upgrade ms ms.length doc) full) else none
     | none => none
+  -- single-step contract (Spec) on consecutive prefix states: state k -> state k+1 is one application of ms[k]
+  let startV := effectiveVersion doc
+  let stepCheck (state : Nat → Option J) : Json :=
+    Json.arr ((List.range ms.length).map fun k =>
+      match startV, ms[k]?, state k, state (k + 1) with
+      | some v, some m, some b, some a =>
+        if 1 ≤ v && v ≤ (k : Int) + 1 then Json.arr ((stepViolationsTop m b a).map Lean.Json.str).toArray else .null
+      | _, _, _, _ => .null).toArray
+  let modelState (k : Nat) : Option J := match convertDict doc (ms.take k) with | .ok d => some d | .error _ => none
   let base := [
+    ("modelSteps", stepCheck modelState),
     ("full", resToJson full), ("stages", Json.arr stages.toArray), ("again", resToJson again),
     ("wf", .bool (wfHistory ms)), ("inDomain", .bool (inDomain ms doc)),
     ("docVersion", optInt (docVersion doc)), ("effVersion", optInt (effectiveVersion doc)),
@@ -138,7 +148,13 @@ def run (j : Json) : Except String Json := do
       let idem := match ifull, iagain with
         | some (.ok r), some ra => some (sameResult ra (.ok r))
         | _, _ => none
-      pure [("implLaws", Json.mkObj [("version", optBool vlaw),
+      let implStates ← (← (← im.getObjVal? "stages").getArr?).toList.mapM fun st => do
+        match (← resOfJson (← st.getObjVal? "s1")) with
+        | some (.ok d) => pure (some d)
+        | _ => pure none
+      let implState (k : Nat) : Option J := (implStates[k]?).join
+      pure [("implSteps", stepCheck implState),
+            ("implLaws", Json.mkObj [("version", optBool vlaw),
               ("compose", Json.arr (istages.map optBool).toArray), ("idempotent", optBool idem)])]
   pure (Json.mkObj (base ++ laws))
 
